@@ -15,7 +15,7 @@ def tree_for(patch):
     if os.path.isdir(dst):
         return dst
     os.makedirs(RG, exist_ok=True)
-    tmp = dst + ".tmp"
+    tmp = dst + ".tmp%d_%d" % (os.getpid(), __import__("threading").get_ident())
     shutil.rmtree(tmp, ignore_errors=True)
     shutil.copytree("/repo", tmp, ignore=shutil.ignore_patterns("target", ".git"))
     subprocess.run(["git", "init", "-q"], cwd=tmp, check=True)
@@ -23,7 +23,10 @@ def tree_for(patch):
     if r.returncode != 0:
         shutil.rmtree(tmp, ignore_errors=True)
         return None
-    os.rename(tmp, dst)
+    try:
+        os.rename(tmp, dst)
+    except OSError:
+        shutil.rmtree(tmp, ignore_errors=True)   # another worker made the same tree meanwhile
     return dst
 
 
